@@ -10,6 +10,9 @@ REQUIRED_BRANCHES = [
     "fstart", "fclear", "pfail", "asyncerr-persister", "nackobs", "segend-fail", "snapend-fail", "msegend-fail", "fault",
     "rmsnap-fail", "loadfail", "open-after-loadfail", "openfail-by-fault", "ack-after-failure-covers",
     "rdobs", "rdobs-during-fault", "image-after-ack", "img-snap-t", "final",
+    # the in-memory-merge path of the persister, forced by holding it at the grab (memmerge), with a fault on each of its I/O steps
+    "equiv", "memmerge:unpersisted-segments-behind-held-persister", "fault:snapshot-write-after-in-memory-merge",
+    "fault:merged-segment-write-in-memory-merge", "fault:merged-segment-load-in-memory-merge",
 ]
 ASSUMPTIONS = [
     "PersistExact = Event.exact (C13) as in C02/C03; a Persist that returns an error has removed its file (C13 persist_fail_clean) — checked here by the directory listing after every failed write",
@@ -35,6 +38,8 @@ def signature(rec):
         return "persist-not-exact"
     if v.startswith("bad:async-error-not-fired"):
         return "async-error-not-fired"
+    if v.startswith("bad:acknowledgement-released-after-failed-persist"):
+        return "persist-error-dropped-ack-released"
     if v.startswith("bad:acknowledgement-never-delivered"):
         return "parked-callback-dropped"
     if v.startswith("bad:error-not-surfaced"):
